@@ -628,7 +628,7 @@ def check_score(o, spec, sr, p2, sfx):
     if got_m != exp_m:
         o.add("measures-differ", got=[(str(a), str(b)) for a, b in got_m][:8], expected=[(str(a), str(b)) for a, b in exp_m][:8],
               pickup=sr.pickup, leading_rest=sr.first_onset > 0, timing_ok=not timing_bad,
-              only_last_end_differs=len(got_m) == len(exp_m) and got_m[:-1] == exp_m[:-1] and got_m[-1][0] == exp_m[-1][0])
+              only_last_end_differs=len(got_m) >= len(exp_m) > 0 and got_m[:len(exp_m) - 1] == exp_m[:-1] and got_m[len(exp_m) - 1][0] == exp_m[-1][0])
     # time signatures
     exp_ts = sr.timesigs()
     got_ts = collapse(sorted((Fraction(int(x.start.t), d2), int(x.beats), int(x.beat_type)) for x in p2.iter_all(S.TimeSignature)))
